@@ -55,6 +55,7 @@ def check(ctx, replay=None):
         raise vlib.Machinery("disasmreplay failed: " + (out + err)[-1500:])
     s = json.loads(out.strip().splitlines()[-1])
     ctx.cov["evaluations"] = s["runs"]
+    ctx.cov["listings_of_150_to_400_functions"] = s.get("listings_of_150_to_400_functions")
     ctx.cov["distinct_nontrivial"] = s["distinct_nontrivial"]
     ctx.cov["traces_validated_against_impl"] = s["cases"]
     ctx.cov["cases_with_model_drift"] = s["drift"]
